@@ -1444,7 +1444,7 @@ bool XMLString::textToBin(const XMLCh* const toConvert, unsigned int& toFill
 	 //
      // REVISIT: conversion of (unsigned long) to (unsigned int)
 	 //          may truncate value on IA64
-    toFill = (unsigned int) strtoul(nptr, &endptr, 10);
+    const unsigned long ulVal = strtoul(nptr, &endptr, 10);
 
 	// check if all chars are valid char
 	// check if overflow/underflow occurs
@@ -1452,6 +1452,11 @@ bool XMLString::textToBin(const XMLCh* const toConvert, unsigned int& toFill
          (errno == ERANGE)                      )
 		return false;
 
+    // the value must fit the result type (unsigned long is wider on LP64)
+    if (ulVal > 0xFFFFFFFFul)
+        return false;
+
+    toFill = (unsigned int) ulVal;
     return true;
 }
 
@@ -1484,7 +1489,8 @@ int XMLString::parseInt(const XMLCh* const toConvert
 		ThrowXMLwithMemMgr(NumberFormatException, XMLExcepts::XMLNUM_Inv_chars, manager);
 
 	// check if overflow/underflow occurs
-    if (errno == ERANGE)
+    // the value must fit an int (long is wider on LP64)
+    if ((errno == ERANGE) || (retVal > 2147483647L) || (retVal < (-2147483647L - 1)))
         ThrowXMLwithMemMgr(NumberFormatException, XMLExcepts::Str_ConvertOverflow, manager);
 
 	 //
